@@ -745,6 +745,9 @@ impl Property for C13 {
                     opk.insert(k, key_of(&pool.nodes[i], pool.origin[i]));
                 }
             }
+            // a character-data node may already hold data it could not be given today (unchecked delete_data, an open
+            // C15 finding): a refused edit cannot put such data back, which is a consequence of that finding
+            let receiver_held_invalid_data = opk.get("n").and_then(|k| before.get(k)).map(|sh| !is_valid_chardata(sh.kind, sh.data.as_deref().unwrap_or(""))).unwrap_or(false);
             let out = hist::apply(&mut pool, op);
             if let Outcome::NotApplicable | Outcome::Excluded(_) = out {
                 continue;
@@ -767,7 +770,7 @@ impl Property for C13 {
                     // atomicity of failures still holds for every call
                     if let Outcome::Err(e) = &out {
                         if let Some(d) = first_diff(&before, &after) {
-                            fail!(format!("c13.not-atomic.{}.{}", kind, err_class(e)), format!("step {} {}: the call failed with {} but changed the state: {}", step, op, e, d));
+                            fail!(if receiver_held_invalid_data { format!("c13.not-atomic.{}.receiver-already-held-invalid-data", kind) } else { format!("c13.not-atomic.{}.{}", kind, err_class(e)) }, format!("step {} {}: the call failed with {} but changed the state: {}", step, op, e, d));
                         }
                     }
                 }
@@ -799,7 +802,7 @@ impl Property for C13 {
                                 );
                             }
                             if let Some(d) = first_diff(&before, &after) {
-                                fail!(format!("c13.not-atomic.{}.{}", kind, cls), format!("step {} {}: the call failed with {} but changed the state: {}", step, op, e, d));
+                                fail!(if receiver_held_invalid_data { format!("c13.not-atomic.{}.receiver-already-held-invalid-data", kind) } else { format!("c13.not-atomic.{}.{}", kind, cls) }, format!("step {} {}: the call failed with {} but changed the state: {}", step, op, e, d));
                             }
                         }
                         _ => {}
@@ -832,7 +835,7 @@ impl Property for C13 {
                             }
                             obs.label("refused-storable-data");
                             if let Some(d) = first_diff(&before, &after) {
-                                fail!(format!("c13.not-atomic.{}.{}", kind, cls), format!("step {} {}: the call failed with {} but changed the state: {}", step, op, e, d));
+                                fail!(if receiver_held_invalid_data { format!("c13.not-atomic.{}.receiver-already-held-invalid-data", kind) } else { format!("c13.not-atomic.{}.{}", kind, cls) }, format!("step {} {}: the call failed with {} but changed the state: {}", step, op, e, d));
                             }
                         }
                         Outcome::Ok(_) => {
